@@ -31,6 +31,20 @@ type c13Case struct {
 	Before string `json:"connection_before,omitempty"`
 	// Burst > 1: that many connections from the same source are opened at the same instant (state must be fresh/idle-wait).
 	Burst int `json:"simultaneous_connections,omitempty"`
+	// RemoteCaps: capabilities in the OPEN with which the peer built the connection that exists when the test
+	// connection arrives ("" none beyond 4-octet AS | "gr" graceful restart with the restart bit | "misc" route
+	// refresh, enhanced route refresh, extended message, long-lived GR, role): admission does not depend on them.
+	RemoteCaps string `json:"remote_capabilities,omitempty"`
+}
+
+func c13ExtraCaps(cs c13Case) []wire.Cap {
+	switch cs.RemoteCaps {
+	case "gr":
+		return []wire.Cap{{Code: 64, Value: []byte{0x80, 0x78, 0, 1, 1, 0x80}}}
+	case "misc":
+		return []wire.Cap{{Code: 2}, {Code: 70}, {Code: 6}, {Code: 71, Value: []byte{0, 1, 1, 0x80, 0, 0, 60}}, {Code: 9, Value: []byte{0}}}
+	}
+	return nil
 }
 
 var c13States = []string{"fresh", "idle-wait", "connect-stalled", "in-opensent", "in-openconfirm", "est-in", "est-out", "out-opensent", "out-openconfirm", "held-down", "held-down-nowrite"}
@@ -147,7 +161,7 @@ func c13Run(cs c13Case, ch vrt.Chooser, trace bool) (*world.World, *vrt.Exec, *c
 				return vnet.DialOutcome{Kind: vnet.DialStall}
 			case "est-out":
 				return accept(func(r *world.Remote) {
-					if reach(r, stEstablished, 65002, 90) {
+					if reach(r, stEstablished, 65002, 90, c13ExtraCaps(cs)...) {
 						stay(r)
 						r.Send(wire.Update([]byte("PROBE")))
 						vrtWaitDelivered(w, "PROBE")
@@ -166,7 +180,7 @@ func c13Run(cs c13Case, ch vrt.Chooser, trace bool) (*world.World, *vrt.Exec, *c
 				})
 			case "out-openconfirm":
 				return accept(func(r *world.Remote) {
-					if reach(r, stOpenConfirm, 65002, 90) {
+					if reach(r, stOpenConfirm, 65002, 90, c13ExtraCaps(cs)...) {
 						stay(r)
 					}
 					r.Deadline(20 * time.Second)
@@ -229,7 +243,7 @@ func c13Run(cs c13Case, ch vrt.Chooser, trace bool) (*world.World, *vrt.Exec, *c
 			})
 		case "in-openconfirm":
 			inbound(func(r *world.Remote) {
-				if reach(r, stOpenConfirm, 65002, 90) {
+				if reach(r, stOpenConfirm, 65002, 90, c13ExtraCaps(cs)...) {
 					w.SetFlag("state-ready")
 					w.WaitFlag("test-done")
 				}
@@ -238,7 +252,7 @@ func c13Run(cs c13Case, ch vrt.Chooser, trace bool) (*world.World, *vrt.Exec, *c
 			})
 		case "est-in":
 			inbound(func(r *world.Remote) {
-				if reach(r, stEstablished, 65002, 90) {
+				if reach(r, stEstablished, 65002, 90, c13ExtraCaps(cs)...) {
 					w.SetFlag("state-ready")
 					w.WaitFlag("test-done")
 					r.Send(wire.Update([]byte("PROBE")))
@@ -440,6 +454,17 @@ func c13Cases() []c13Case {
 					for _, to := range []string{"X", "Y", "W"} {
 						out = append(out, c13Case{Peers: peers, State: st, From: from, To: to, WildOnly: true, Before: before})
 					}
+				}
+			}
+		}
+	}
+	// the peer's OPEN on the existing connection carried capabilities (graceful restart among them)
+	for _, peers := range []string{"P1", "P1-passive"} {
+		for _, st := range []string{"est-in", "est-out", "in-openconfirm", "out-openconfirm"} {
+			for _, rc := range []string{"gr", "misc"} {
+				cs := c13Case{Peers: peers, State: st, From: "A", To: "X", RemoteCaps: rc}
+				if c13Applicable(cs) {
+					out = append(out, cs)
 				}
 			}
 		}
